@@ -20,6 +20,42 @@ CHECKS = {
     ),
 }
 
+CHECKS["C14"] = dict(
+    category="model_checking",
+    text="Every backend write (offset, bytes) of every generated writer program - sync and threaded writer, several signals/types, gaps, omission, "
+         "annotations/UTC/user data, late definitions - is recorded by link-time interposition of write/ftruncate/..., lifted from the bytes before/after "
+         "it to (region, changed header fields, changed head-table entries and what they point at), and judged by TLC with JlsFile!WriteVerdict "
+         "(JlsWriteOnceTrace.tla): appends only grow the file; in-place writes touch only item_next/item_prev/crc of a chunk header, or a track-head "
+         "entry once from 0 to a complete DATA/INDEX chunk of that track, signal and level, or the file header at open/close; no truncation. "
+         "JlsFileGen.tla model-checks that this discipline keeps content immutable.",
+    design_ref="DESIGN.md section 6 C14, section 12",
+    note="Trusted: TLC; tools/lifter.py (decoder written from format.h with its own CRC-32C); harness/iowrap.c (records, never alters I/O); "
+         "contiguous consecutive in-place writes are coalesced (payload+footer of a head-table rewrite is one logical write).",
+    technique="TLC trace validation of the complete backend write log against a TLA+ write-discipline specification; TLC model checking of the discipline",
+)
+_API = ("Programs are generated (seeded), executed on the real library through a ctypes driver, and every API call's outcome is recorded at its return; "
+        "TLC replays the trace through the JlsApi.tla contract (JlsApiTrace.tla, total style: every execution judged in one run). Sample data are "
+        "pseudo-random per (write call, sample id); a read is projected to candidate runs (which write calls' data equal what was returned) and the "
+        "specification - not the driver - decides which source each position must have. ")
+CHECKS["C01"] = dict(
+    category="model_checking",
+    text=_API + "C01: all 15 data types (incl. 24-bit), minimal/default/large-block geometries (one block > 1 MiB), partitions incl. 1-sample and sub-byte-odd calls, "
+         "first ids negative/large, several signals interleaved, windows aimed at byte/entry/block edges and the last sample; length and every window judged. "
+         "JlsApiGen.tla model-checks the contract itself (segments well formed, ideal reader accepted for every window, wrong source rejected).",
+    design_ref="DESIGN.md section 6 C01, section 12",
+    note="Trusted: TLC; tools/jlsdrv.py (driver/projection; generator data are a function of (event, id)); u1 runs match a wrong sample with probability 2^-n.",
+    technique="TLC trace validation of API executions against a TLA+ contract (candidate-run projection); TLC model checking of the contract",
+)
+CHECKS["C09"] = dict(
+    category="model_checking",
+    text=_API + "C09: programs with gaps (1 sample .. several blocks .. beyond the 32 KiB fill buffer) and overlaps (partial, total, odd/even sub-byte) for all types, "
+         "sequences of several gaps/overlaps, windows across the seams: fill runs must be NaN/0, overlapped positions must carry the first-written data, "
+         "length = last+1-first. JlsApiGen.tla explores all short append/skip/overlap histories of the contract.",
+    design_ref="DESIGN.md section 6 C09, section 12",
+    note="Trusted: as C01. The summary clause (gap samples absent from float summaries) is judged by C02's check.",
+    technique="TLC trace validation of API executions against a TLA+ contract; TLC model checking of the contract's gap/overlap arithmetic",
+)
+
 NOT_YET = {}
 
 
